@@ -118,6 +118,15 @@ func c06WriteCorpus(r *core.Run, dir string) (map[string]string, error) {
 		files["fwd/"+name+"/z_later.go"] = b.String()
 		classes[c06Mod+"/fwd/"+name] = "generated-good"
 	}
+	// packages with an unsupported construct in each of several files: the order of the error list must not
+	// depend on how the files were parsed
+	for k := 0; k < 3; k++ {
+		name := fmt.Sprintf("mf%d", k)
+		for fi, fn := range []string{"a.go", "b.go", "c.go", "d.go", "e.go", "f.go"} {
+			files["multi/"+name+"/"+fn] = fmt.Sprintf("package %s\n\nfunc Ok%d(x uint64) uint64 {\n\treturn x + %d\n}\n\nfunc Bad%d(x uint64) uint64 {\n\tswitch x {\n\tcase %d:\n\t\treturn 1\n\t}\n\treturn x\n}\n", name, fi, k, fi, fi)
+		}
+		classes[c06Mod+"/multi/"+name] = "generated-bad"
+	}
 	// packages that share their NAME (not their path) and differ in FFI, imports and contents: whatever is
 	// remembered per package must be keyed by the path
 	same := map[string]string{
